@@ -486,16 +486,22 @@ func runSrvCase(ws *worker, c *srvCase, w io.Writer) ([]finding, srvInfo) {
 	if !ok {
 		add("server:plaintext-after-starttls-ok", "after the completion line %s the server wrote bytes that are not TLS records: %s", q(post[:i+2]), why)
 	}
-	var legit []string
-	if c.Suffix == "" && info.Handshake {
-		legit = []string{"Login[tu tp]"}
-	}
-	if strings.Join(calls, ";") != strings.Join(legit, ";") {
-		if c.Suffix == "" {
-			add("server:clean-starttls-fails", "after a clean STARTTLS (handshake completed: %v, error %v) and LOGIN tu tp inside TLS the backend saw %v, expected %v", info.Handshake, herr, calls, legit)
+	// the only call the driver itself causes is Login[tu tp] inside TLS (after a completed
+	// handshake); everything else can only stem from the plaintext suffix
+	var foreign []string
+	inTLS := 0
+	for _, cl := range calls {
+		if cl == "Login[tu tp]" && info.Handshake {
+			inTLS++
 		} else {
-			add("server:backend-call-from-plaintext-suffix", "backend calls %v are attributable to the plaintext injected after the STARTTLS line", calls)
+			foreign = append(foreign, cl)
 		}
+	}
+	if len(foreign) > 0 || inTLS > 1 {
+		add("server:backend-call-from-plaintext-suffix", "backend calls %v are attributable to the plaintext injected after the STARTTLS line (all calls: %v)", foreign, calls)
+	}
+	if c.Suffix == "" && info.Handshake && inTLS != 1 {
+		add("server:clean-starttls-fails", "after a clean STARTTLS and LOGIN tu tp inside TLS the backend saw %v", calls)
 	}
 	if c.Suffix != "" && info.Handshake {
 		add("server:handshake-succeeds-after-injected-plaintext", "the TLS handshake completed although %s was injected in plaintext after the STARTTLS line (those bytes were not consumed by the handshake); inside TLS the server then said %s", q(c.Suffix), q(tlsPlain))
@@ -896,6 +902,9 @@ func runCliCase(c *cliCase, w io.Writer) ([]finding, cliInfo) {
 			},
 		},
 	}
+	if w != nil && os.Getenv("C17_DEBUG") != "" {
+		opts.DebugWriter = os.Stderr // wire dump as the client sees it (replay only)
+	}
 	client, err := imapclient.NewStartTLS(conn, opts)
 	if err != nil {
 		info.Err = err.Error()
@@ -926,7 +935,7 @@ func runCliCase(c *cliCase, w io.Writer) ([]finding, cliInfo) {
 	info.PeerGotCmd = rep.gotStartTLS
 	info.TLSCmds = rep.tlsCmds
 	// how many post-boundary bytes sat in the client's bufio.Reader at the switch
-	if rep.gotStartTLS {
+	if c.Greeting != "bye" && c.OKLine != "no" {
 		boundary := len(c.Pre) + len(okLines[c.OKLine])
 		pos := 0
 		for _, s := range split(c.stream(), c.Cuts) {
@@ -1055,7 +1064,8 @@ func report(f finding, size int, detail map[string]interface{}, rerun func() []f
 }
 
 func caseSizeSrv(c *srvCase) int {
-	return len(c.Cuts)*1000 + len(c.Suffix)*4 + len(c.Prefix)*50 + len(c.Mode)
+	rank := map[string]int{"none": 0, "hello": 1, "glue": 2}[c.Mode]
+	return len(c.Cuts)*1000 + len(c.Suffix)*4 + len(c.Prefix)*50 + rank
 }
 
 func caseSizeCli(c *cliCase) int {
@@ -1072,7 +1082,7 @@ func main() {
 	thorough := run.Thorough()
 	kSrv, kCli := 2, 2
 	if thorough {
-		kSrv, kCli = 3, 3
+		kSrv, kCli = 4, 3
 	}
 	var fams []*family
 
@@ -1089,9 +1099,6 @@ func main() {
 				}
 				n := len(startLine) + len(sfx.Text)
 				k := kSrv
-				if thorough && n <= 26 {
-					k = 4
-				}
 				if !thorough && n <= 26 {
 					k = 3
 				}
@@ -1164,7 +1171,7 @@ func main() {
 		offs[i+1] = offs[i] + f.size()
 	}
 	total := offs[len(fams)]
-	fmt.Printf("C17: %d families, %d cases (server segmentations <= %d cuts, short streams one more; client <= %d cuts, short streams one more)\n", len(fams), total, kSrv, kCli)
+	fmt.Printf("C17: %d families, %d cases (server: <= %d cuts%s; client: <= %d cuts, streams of <= 26 bytes one more; PREAUTH/BYE greetings and refused STARTTLS <= 1 cut)\n", len(fams), total, kSrv, map[bool]string{true: "", false: ", streams of <= 26 bytes one more"}[thorough], kCli)
 
 	nw := runtime.GOMAXPROCS(0)
 	pool := make(chan *worker, nw)
@@ -1282,17 +1289,6 @@ func main() {
 	nOut := 0
 	outcomes.Range(func(k, v interface{}) bool { nOut++; return true })
 
-	// non-vacuity
-	if srvLogin == 0 || srvHS == 0 {
-		engine("non-vacuity: no server-side handshake + LOGIN inside TLS completed")
-	}
-	if cliLive == 0 {
-		engine("non-vacuity: no client-side STARTTLS upgrade completed")
-	}
-	if srvBuffered == 0 || cliBuffered == 0 {
-		engine("non-vacuity: no case with plaintext buffered at the switch")
-	}
-
 	fmt.Printf("server: %d segmentation cases (%d with injected bytes already buffered at the switch), %d with a ClientHello phase, %d connections closed by the server before a ClientHello could be sent, %d TLS handshakes completed, %d LOGINs accepted inside TLS (%d of them with the ClientHello pipelined behind the STARTTLS line), %d TLS records checked; %d policy cases\n",
 		srvCases, srvBuffered, srvHello, srvClosedEarly, srvHS, srvLogin, srvGlueOK, srvRecords, polCases)
 	fmt.Printf("client: %d cases (%d with post-boundary bytes buffered at the switch): refused in %d (timing-dependent split: NewStartTLS error %d, dead client %d), a working client in %d; peer-side TLS handshakes completed %d (timing-dependent: the peer may finish its side just before the client aborts); client wrote non-TLS bytes after STARTTLS in %d cases, CAPABILITY sent before STARTTLS by goroutine timing in %d cases (informational)\n",
@@ -1348,9 +1344,26 @@ func main() {
 		run.Violation(k, f.detail)
 	}
 
+	// non-vacuity (only meaningful when nothing was found: a defect may well prevent every upgrade)
+	if len(keys) == 0 {
+		if srvLogin == 0 || srvHS == 0 {
+			engine("non-vacuity: no server-side handshake + LOGIN inside TLS completed")
+		}
+		if cliLive == 0 {
+			engine("non-vacuity: no client-side STARTTLS upgrade completed")
+		}
+		if srvBuffered == 0 || cliBuffered == 0 {
+			engine("non-vacuity: no case with plaintext buffered at the switch")
+		}
+	}
+
 	run.Exhaustive = true
-	run.Rule = fmt.Sprintf("server: Options.TLSConfig {nil,set} x InsecureAuth {off,on} x %d suffixes appended to 'a STARTTLS CRLF' x every segmentation into <= %d writes (<= %d for streams of <= 26 bytes) x {nothing more, genuine TLS ClientHello then 'c LOGIN tu tp' inside TLS}; ClientHello pipelined behind the STARTTLS line (first 1/4/5/6/64/all bytes in the same segment) x every segmentation of the line into <= 3 writes; policy table: 4 configurations x 3 session kinds x %d prefixes x %d probes. client: greeting {OK, OK [CAPABILITY], PREAUTH, BYE} x STARTTLS completion {OK, OK [CAPABILITY..X-OKCODE], NO} x {nothing, '* CAPABILITY .. X-EARLY'} before it x %d suffixes after it x every segmentation into <= %d writes (one more for streams <= 26 bytes; PREAUTH/BYE/NO: <= 2 writes) x peer then {keeps sending plaintext IMAP and closes, closes, sends a TLS-looking junk record and closes, is a genuine TLS server answering CAPABILITY with X-INSIDE-TLS}. non-trivial = cases in which post-boundary bytes sat in the bufio.Reader at the switch",
-		len(srvSuffixes), kSrv+1, kSrv+2, len(policyPrefixes), len(policyProbes), len(cliSuffixes), kCli+1)
+	srvRule := fmt.Sprintf("<= %d writes", kSrv+1)
+	if !thorough {
+		srvRule += fmt.Sprintf(" (<= %d for streams of <= 26 bytes)", kSrv+2)
+	}
+	run.Rule = fmt.Sprintf("server: Options.TLSConfig {nil,set} x InsecureAuth {off,on} x %d suffixes appended to 'a STARTTLS CRLF' x every segmentation into %s x {nothing more, genuine TLS ClientHello then 'c LOGIN tu tp' inside TLS}; ClientHello pipelined behind the STARTTLS line (first 1/4/5/6/64/all bytes in the same segment) x every segmentation of the line into <= 3 writes; policy table: 4 configurations x 3 session kinds x %d prefixes x %d probes. client: greeting {OK, OK [CAPABILITY], PREAUTH, BYE} x STARTTLS completion {OK, OK [CAPABILITY..X-OKCODE], NO} x {nothing, '* CAPABILITY .. X-EARLY'} before it x %d suffixes after it x every segmentation into <= %d writes (one more for streams <= 26 bytes; PREAUTH/BYE/NO: <= 2 writes) x peer then {keeps sending plaintext IMAP and closes, closes, sends a TLS-looking junk record and closes, is a genuine TLS server answering CAPABILITY with X-INSIDE-TLS}. non-trivial = cases in which post-boundary bytes sat in the bufio.Reader at the switch",
+		len(srvSuffixes), srvRule, len(policyPrefixes), len(policyProbes), len(cliSuffixes), kCli+1)
 	run.Assume("NewStartTLS does not force the TLS handshake (it is performed lazily by the first read/write), so with a hostile peer it may return a client instead of an error depending on goroutine timing; a returned client on which Caps() is nil and NOOP fails is counted as the statement's 'error' outcome (the statement forbids interpreting the plaintext, not late failure)")
 	run.Assume("inside TLS the driver logs in as tu/tp while the plaintext suffix uses u/p, so every backend call is attributable")
 	run.Assume("'nothing after the OK line but TLS records' is judged on the raw bytes the server wrote to the in-memory socket, with an own record-header check (type 20..23, version 3.x, length <= 18432, complete)")
